@@ -251,7 +251,14 @@ let handle kind fs obs =
     let ofs = fields (String.split_on_char ' ' obs) in
     let vb = unsparse (field ofs "v") in
     let getV = mget_of vb and vlen = n_of_int (Bytes.length vb) in
-    let wf = wf_sections flen soh soi secs in
+    (* the theorems relate a file view and a mapped view that carry the SAME headers (mapped_view .. soh soi secs): true of
+       to_view's output only when the whole of the headers - through the last section header - lies in the SizeOfHeaders
+       bytes that are copied.  An image whose SizeOfHeaders cuts its own headers short is not well formed (the generator's
+       wf=0 stream); its converted form has an empty data directory and zeroed section headers (thorough sweep, seed 0) *)
+    let hdr_end = Z.add (z_of_n (sec_table_off f m)) (Z.mul (Z.of_int 40) (z_of_n (h_nsec f m))) in
+    let headers_copied = Z.leq hdr_end (z_of_n soh) in
+    if not headers_copied then tag "headers-beyond-SizeOfHeaders";
+    let wf = wf_sections flen soh soi secs && headers_copied in
     tag (if wf then "wf" else "odd");
     List.iter (fun s ->
       let c = compare (Z.to_int (z_of_n s.s_vs)) (Z.to_int (z_of_n s.s_srd)) in
